@@ -13,10 +13,10 @@ import (
 	"fmt"
 	"os"
 	"os/exec"
-	"syscall"
 	"strings"
 	"sync"
 	"sync/atomic"
+	"syscall"
 	"time"
 
 	"verif/harness/evid"
